@@ -192,6 +192,10 @@ def synth_castle(rng):
 def synth_ep(rng):
     side = rng.choice("wb")
     r5, r6 = (4, 5) if side == "w" else (3, 2)
+    if rng.random() < 0.25:
+        # the same pawn structure on a WRONG rank: the reader must drop the en-passant square
+        r5 = rng.choice([2, 3, 4, 5])
+        r6 = r5 + 1 if side == "w" else r5 - 1
     own, opp = ("P", "p") if side == "w" else ("p", "P")
     f = rng.randrange(8)
     board = {r5 * 8 + f: opp}
@@ -635,21 +639,45 @@ def locate_crash(cpp_exe, cmds, env=None):
 
 
 def shrink_cmd(cpp_exe, ml_exe, cmd):
-    """reduce an STM / UCM / UCI command to the single string (line) on which model and code differ"""
+    """reduce a command to the single string (line) on which model and code differ, then shorten that string"""
     t = cmd.split(" ")
+
     def bad(c):
         rc1, rc2, l1, l2, _, _ = run_pair(cpp_exe, ml_exe, [c], timeout=120)
         return rc1 != 0 or rc2 != 0 or first_diff(l1, l2) is not None
-    if t[0] == "STM" and len(t) > 3:
+
+    def shorten(prefix, h):
+        """greedy removal of byte ranges from one hex-encoded string while the disagreement stays"""
+        try:
+            b = unhx(h)
+        except ValueError:
+            return h
+        budget = 250
+        step = max(1, len(b) // 2)
+        while step >= 1 and budget > 0:
+            i = 0
+            while i < len(b) and budget > 0:
+                cand = b[:i] + b[i + step:]
+                budget -= 1
+                if bad(prefix + hx(cand)):
+                    b = cand
+                else:
+                    i += step
+            step //= 2
+        return hx(b)
+
+    if t[0] == "STM" and len(t) >= 3:
         for s in t[2:]:
             c = " ".join([t[0], t[1], s])
             if bad(c):
-                return c
-    if t[0] == "UCM" and len(t) > 2:
+                return " ".join([t[0], t[1], shorten("STM %s " % t[1], s)])
+    if t[0] == "UCM" and len(t) >= 2:
         for s in t[1:]:
             if bad("UCM " + s):
-                return "UCM " + s
-    if t[0] == "UCI" and len(t) > 2:
+                return "UCM " + shorten("UCM ", s)
+    if t[0] == "FEN" and len(t) == 2 and bad(cmd):
+        return "FEN " + shorten("FEN ", t[1])
+    if t[0] == "UCI" and len(t) >= 2:
         cur = t[1:]
         i = len(cur) - 1
         while i >= 0 and len(cur) > 1:
@@ -657,6 +685,8 @@ def shrink_cmd(cpp_exe, ml_exe, cmd):
             if bad("UCI " + " ".join(cand)):
                 cur = cand
             i -= 1
+        if len(cur) == 1 and bad("UCI " + cur[0]):
+            return "UCI " + shorten("UCI ", cur[0])
         return "UCI " + " ".join(cur)
     return cmd
 
@@ -807,11 +837,11 @@ def run(ctx):
         ctx.count("corpus_commands", len(cl))
 
     # phase 1: positions
-    n_walks = ctx.scale(36, 6000)
+    n_walks = ctx.scale(36, 2500)
     starts = c02.SEED_FENS + c02.PROMO_FENS
     walks = ["WALK %d %d %s" % (rng.getrandbits(48), rng.choice([60, 90, 120]), hx(rng.choice(starts) if rng.random() < 0.6 else START))
              for _ in range(n_walks)]
-    n_syn = ctx.scale(2600, 500000)
+    n_syn = ctx.scale(2600, 200000)
     syn = ["POS " + hx(gen_synthetic(rng)) for _ in range(n_syn)]
     pgn_seeds = ["PGNTXT %d %d %s" % (rng.getrandbits(40), rng.choice([5, 20, 60]), hx(START)) for _ in range(ctx.scale(40, 400))]
     process(walks + syn + pgn_seeds)
